@@ -138,6 +138,17 @@ func genQuote(tier string, rng *RNG, emit func(Case)) {
 			}
 		}
 	}
+	// directed: DEEP nesting (bookkeeping per nesting level that is bounded by a machine word or a fixed table): state-sensitive
+	// shapes (loose / tight lists, a list after a blank line, fenced code, setext heading) inside 28..36 and 58..70 block quotes
+	for _, inner := range []string{"- a\n\n- b\n", "- a\n- b\n", "a\n\n- b\n\n  c\n", "1. a\n\n2. b\n", "```\nx\n\ny\n```\n", "a\n===\n\nb\n", "- a\n\n  - b\n\n  - c\n"} {
+		for _, k := range []int{28, 30, 31, 32, 33, 36, 58, 60, 61, 62, 63, 64, 65, 66, 70} {
+			d := []byte(inner)
+			for i := 0; i < k; i++ {
+				d = prefixLines(d, "> ")
+			}
+			emit(Case{Op: "q", Args: []string{fmt.Sprint(k % len(quoteCfgs)), "1", hx(d)}})
+		}
+	}
 	DocStream(rng, len(CorpusDocs())+n, func(kind string, d []byte) {
 		if kind == "corpus" {
 			return
